@@ -50,7 +50,8 @@ EXPLANATION = ("(A) Lean: Model/Lifecycle.lean is an executable model of Router 
                "setNewPoly, deleteCluster mid-history, ~Router with clusters alive; all 9 RoutingParameters and 6 of the 7 RoutingOptions at 0 / default / "
                "other values, changed between transactions; setRoutingType flips, fixed routes, splitAtSegment, removeJunctionAndMergeConnectors, "
                "transformConnectionPinPositions, resized moveShape with first_move, pins with absolute offsets / inside offset / connection cost, "
-               "ConnEnd(Point, directions), callbacks, queries, outputInstanceToSVG / outputDiagramText; with transactions off also deleteJunction, moving obstacles with "
+               "ConnEnd(Point, directions), callbacks, queries, outputInstanceToSVG / outputDiagramText, transactions cancelled through a "
+               "Router subclass overriding shouldContinueTransactionWithProgress; with transactions off also deleteJunction, moving obstacles with "
                "attached connectors, the 3-argument ConnRef constructor and new pins on attached shapes) plus vpsc/cola/topology/dialect lifecycles, runs them "
                "under ASan+UBSan+LSan with assertions on, calls __lsan_do_recoverable_leak_check() after every case, and "
                "driver_c15 replays each Router history in the model, checks Legal for every op and compares the observable "
